@@ -28,9 +28,29 @@ def rule_histtrunc(ctx, ig, cp, prop='C05'):
     lie on every path to the UTXO commit.'''
     f = ig.root.func
     hb = ctx.func('hist', 'History.backup')
-    bfs = ctx.func('db', 'DB.backup_fs')
+    bfs = ctx.func('db', 'DB.backup_fs', required=False)
     n = 0
+    if bfs is None:
+        # the two-line pointer update merged into flush_backup itself: the same requirement on the assignments
+        want_ = {'self.fs_height': 'flush_data.state.height', 'self.fs_tx_count': 'flush_data.state.tx_count'}
+        sts = {t_: [s_ for s_ in f.own_nodes() if isinstance(s_, ast.Assign) and len(s_.targets) == 1 and ctx.res.canon(s_.targets[0], f) == t_]
+               for t_ in want_}
+        ok = all(len(v) == 1 and norm(v[0].value) == want_[t_] for t_, v in sts.items())
+        why = 'the file pointers fs_height / fs_tx_count are not set once each to the decremented state (and DB.backup_fs is gone)'
+        wit = None
+        if ok:
+            for t_, v in sts.items():
+                gn = (ig.root.id, ig.root.cfg.node(v[0]))
+                skip = ig.path_avoiding([ig.entry], [cp.gnode], {gn})
+                if skip is not None:
+                    ok, why, wit = False, f'the UTXO commit can be reached without `{norm(v[0])}`', ig.describe(skip)
+        ctx.check(ok, (f'{prop}.HISTTRUNC' if prop != 'C06' else 'C06.JOBATOMIC'), ctx.key(f, None, 'DB.backup_fs'),
+                  'the file pointers are lowered to the decremented state on every path to the UTXO commit of the same job',
+                  why + ' (a stop or crash between jobs then leaves the files ahead of the stored state)', witness=wit, loc=ctx.loc(f, f.node))
+        n += 1
     for callee, want in ((hb, {1: 'flush_data.state.tx_count'}), (bfs, {0: 'flush_data.state.height', 1: 'flush_data.state.tx_count'})):
+        if callee is None:
+            continue
         calls = q.calls_resolving_to(ctx, f, callee)
         ok = len(calls) == 1
         wit = None
